@@ -204,7 +204,7 @@ impl SenderInnerR {
     ensures
         r is Ok ==> final(self).link.sent@.len() == old(self).link.sent@.len() + 1 && ({
             let t = final(self).link.sent@.last().0;
-            &&& t.delivery_tag == Some(delivery_tag) && t.resume && t.aborted && !t.more        // [C02.resume.abort-names-the-delivery] a delivery only the receiver still knows is aborted under ITS tag: resume = true, aborted = true
+            &&& t.delivery_tag == Some(delivery_tag) && t.resume && t.aborted && !t.more && !t.batchable && t.delivery_id is None        // [C02.resume.abort-names-the-delivery] a delivery only the receiver still knows is aborted under ITS tag: resume = true, aborted = true
             &&& (sender is Some ==> (final(self).link.resolved@ == old(self).link.resolved@.push(sender->Some_0) && final(self).link.unsettled == old(self).link.unsettled)
                     || (final(self).link.resolved@ == old(self).link.resolved@ && final(self).link.unsettled is Some && final(self).link.unsettled->Some_0.contains_key(delivery_tag) && final(self).link.unsettled->Some_0[delivery_tag].sender == sender->Some_0))     // [C02.resume.waiter-not-lost] a send that still waits on that delivery is either answered now or stays registered under the delivery's tag: its completion channel is never dropped on the floor
         }),
@@ -221,7 +221,9 @@ impl SenderInnerR {
     ensures
         r is Ok ==> final(self).link.sent@.len() == old(self).link.sent@.len() + 1 && ({
             let (t, p) = final(self).link.sent@.last();
-            &&& t.delivery_tag == Some(delivery_tag) && t.resume && !t.aborted && t.state == unsettled_message.state && t.message_format == Some(unsettled_message.message_format)      // [C02.resume.resumed-under-its-own-tag] a delivery both ends remember is resumed under ITS tag, with the state the sender has on record
+            &&& t.delivery_tag == Some(delivery_tag) && t.resume && !t.aborted && t.state == unsettled_message.state && t.message_format == Some(unsettled_message.message_format)
+                && !t.more && !t.batchable && t.delivery_id is None && t.settled == Some(old(self).link.snd_settle_mode is Settled)      // (settled as the link's snd-settle-mode says; the session assigns the delivery-id; `more` is decided by the splitter)
+            // [C02.resume.resumed-under-its-own-tag] a delivery both ends remember is resumed under ITS tag, with the state the sender has on record
             &&& p == unsettled_message.payload       // [C01.resume.same-payload]
             &&& (final(self).link.unsettled != old(self).link.unsettled ==> final(self).link.unsettled == Some((match old(self).link.unsettled { Some(mm) => mm, None => Map::empty() }).insert(delivery_tag, unsettled_message)))      // [C02.resume.waiter-not-lost] unless it went out settled, the delivery -- with the channel its send waits on -- is unsettled again under the same tag
         }),
@@ -240,7 +242,7 @@ impl SenderInnerR {
     ensures
         r is Ok ==> final(self).link.sent@.len() == old(self).link.sent@.len() + 1 && ({
             let t = final(self).link.sent@.last().0;
-            &&& t.delivery_tag == Some(delivery_tag) && t.resume && !t.aborted && t.state == Some(state) && t.settled == Some(false)       // [C02.resume.outcome-restated] the outcome the sender has on record is stated again for THAT delivery, unsettled
+            &&& t.delivery_tag == Some(delivery_tag) && t.resume && !t.aborted && t.state == Some(state) && t.settled == Some(false) && !t.more && !t.batchable && t.delivery_id is None       // [C02.resume.outcome-restated] the outcome the sender has on record is stated again for THAT delivery, unsettled
             &&& (final(self).link.resolved@ == old(self).link.resolved@.push(sender) && final(self).link.unsettled == old(self).link.unsettled)
                     || (final(self).link.resolved@ == old(self).link.resolved@ && final(self).link.unsettled is Some && final(self).link.unsettled->Some_0.contains_key(delivery_tag) && final(self).link.unsettled->Some_0[delivery_tag].sender == sender)      // [C02.resume.waiter-not-lost]
         }),
